@@ -64,6 +64,21 @@ inductive GoErr where
   | named (name : String)              -- another package-level or imported error value (io.EOF, …)
 deriving Repr, DecidableEq
 
+/-- outcome of a translated `for` loop: the enclosing function returns (`ret`), or the loop is left normally with the
+    values of the variables it assigns (`done`) -/
+inductive LoopR (ρ σ : Type) where
+  | ret (r : ρ)
+  | done (s : σ)
+
+/-- a Go map as an association list, newest entry first (`List.lookup` finds what the Go map holds); `none` = nil map -/
+abbrev GoMap (κ ν : Type) := Option (List (κ × ν))
+
+/-- `m[k] = v` (a store into a nil map panics) -/
+def mapSet {κ ν : Type} (m : GoMap κ ν) (k : κ) (v : ν) : GM (GoMap κ ν) :=
+  match m with
+  | none => .panic "nilmap"
+  | some l => .ok (some ((k, v) :: l))
+
 /-! ## slices (cap = len) -/
 
 def len (b : Bytes) : Int := (b.length : Int)
@@ -73,6 +88,21 @@ def idx (b : Bytes) (i : Int) : GM Int :=
   if i < 0 then .panic "index"
   else match b[i.toNat]? with
     | some x => .ok (x.toNat : Int)
+    | none => .panic "index"
+
+/-- an unsafe load of the byte at offset `i` of the slice's memory: outside the slice it is an out-of-bounds read
+    (no Go panic; the outcome `oob`) -/
+def uload (b : Bytes) (i : Int) : GM Int :=
+  if i < 0 then .oob
+  else match b[i.toNat]? with
+    | some x => .ok (x.toNat : Int)
+    | none => .oob
+
+/-- `tbl[i]` for a package-level array of integer constants -/
+def tblIdx (tbl : List Int) (i : Int) : GM Int :=
+  if i < 0 then .panic "index"
+  else match tbl[i.toNat]? with
+    | some x => .ok x
     | none => .panic "index"
 
 /-- `b[lo:]` -/
